@@ -252,6 +252,20 @@ def _canon_control(tree: ast.Module) -> ast.Module:
         if isinstance(node, ast.If) and node.orelse and isinstance(node.test, ast.UnaryOp) and isinstance(node.test.op, ast.Not) \
                 and not (len(node.orelse) == 1 and isinstance(node.orelse[0], ast.If)):
             node.test, node.body, node.orelse = node.test.operand, node.orelse, node.body
+    # if not C: A(terminates)   REST(terminates)   ->   if C: REST   A          (both orders are "either A or REST"; the positive test comes first)
+    for node in ast.walk(tree):
+        for fld in ("body", "orelse", "finalbody"):
+            b = getattr(node, fld, None)
+            if not (isinstance(b, list) and b and isinstance(b[0], ast.stmt)):
+                continue
+            for i, st in enumerate(b):
+                if isinstance(st, ast.If) and not st.orelse and isinstance(st.test, ast.UnaryOp) and isinstance(st.test.op, ast.Not) and _terminates(st.body) \
+                        and i + 1 < len(b) and _terminates(b[i + 1:]) and not any(isinstance(x, (ast.FunctionDef, ast.ClassDef)) for x in b[i + 1:]):
+                    rest = b[i + 1:]
+                    body = st.body
+                    st.test, st.body = st.test.operand, rest
+                    b[i + 1:] = body
+                    break
     changed = True
     while changed:
         changed = False
